@@ -82,7 +82,8 @@ def run_apply_procedure(chk, ex, K, on_path):
     @stub(ex, r"::eval_procedure_call$", "eval_procedure_call -> any Ok((procedure, args)) or any Err; logged")
     def eval_call(ex, callee, args, rt):
         n = len([e for e in ex.events if e["kind"] == "eval_procedure_call"]) + 1
-        ex.log("eval_procedure_call", expr=args[0], operands=args[1], env=args[2])
+        # resolve the referents now: the references point into locals that the next iteration overwrites
+        ex.log("eval_procedure_call", expr=name_of(ex, args[0]), operands=name_of(ex, args[1]), env=name_of(ex, args[2]))
         if n >= K:
             cuts["n"] += 1       # stated bound: K trampoline iterations
             return
@@ -292,3 +293,49 @@ def scheme_shape_probe(nat, fixed, variadic, nargs, ndefs, nbody):
     if out3[-3:] != ["OK I 1", "OK I 100", "OK I 200"]:
         return True, "program %r: bindings of a call leak into the defining environment: %s (expected 1 100 200)" % (prog3, out3[-3:])
     return False, "native probes of this shape behave correctly: %s | %s | %s" % (out[-2:], out2[-3:], out3[-3:])
+
+
+# ================================================================================================ eval_tail_expression
+def run_eval_tail(chk, ex, depth, on_path):
+    @stub(ex, r"::eval_expression$", "eval_expression -> any Ok(value) or any Err; logged")
+    def eval_expr(ex, callee, args, rt):
+        n = len([e for e in ex.events if e["kind"] == "eval"])
+        envcell = frame_of(ex, args[1])[0]
+        ex.log("eval", expr=ex.deref(args[0]), env=envcell)
+        v = Lazy("values::Value<R>", "tv%d" % n)
+        for b in ex.branches([True, True]):
+            if b == 0:
+                ex.log("eval_ok", value=v)
+                yield Ok(v)
+            else:
+                e = err_value("from eval_expression #%d" % n)
+                ex.log("eval_err", error=e)
+                yield Err(e)
+
+    @stub(ex, r"::apply_procedure$|::eval_procedure_call$|::apply_scheme_procedure$", "must not be reached from eval_tail_expression")
+    def forbidden(ex, callee, args, rt):
+        ex.log("forbidden_call", callee=callee)
+        yield Lazy("std::result::Result<values::Value<R>, error::Located<error::ErrorData>>", "forbidden_result")
+
+    f = ex.fn_by_suffix("::eval_tail_expression")
+    ex.recursion_limits["::eval_tail_expression"] = depth + 1
+    expr = Lazy("parser::Expression", "e")
+    envrc = Ref(Cell(Opaque("Environment", "tail_env"), "tail_env_frame"))
+    for rv in ex.run(f, [Ref(Cell(expr)), envrc]):
+        on_path(rv, list(ex.events), {"expr": expr, "env": envrc})
+    return ex.cuts.get("::eval_tail_expression", 0)
+
+
+def name_of(ex, v):
+    """deterministic name of the input object a reference designates (Lazy / SeqObj / the cell that holds it)"""
+    x = v
+    if isinstance(x, Ref):
+        t = ex.load(x)
+        if isinstance(t, (Lazy, SeqObj)):
+            return t.name
+        if isinstance(t, Ref):
+            return name_of(ex, t)
+        return x.cell.name
+    if isinstance(x, (Lazy, SeqObj)):
+        return x.name
+    return None
